@@ -51,7 +51,7 @@ for p in sorted(glob.glob(os.path.join(VERIF, "seeded", "*", "meta.json"))):
         conf = "see meta.json"
     rows.append("| %s | %s | %s | %s | %s |" % (m.get("name"), m.get("change", "").replace("|", "/"), "; ".join(det) or "—", conf, m.get("history", "caught as delivered")))
 rows.append("")
-rows.append("%d of %d seeded changes are caught by the check of the property they were written against." % (ncaught, ntotal))
+rows.append("%d of %d seeded changes are caught by the check of the property they were written against. The others: C05_m3 is a concurrency-only change delivered against the sequential property C05 (C06 catches it); C13_m3 became harmless through the D14 repair (see its history)." % (ncaught, ntotal))
 table = "\n".join(rows)
 path = os.path.join(VERIF, "DESIGN.md")
 s = open(path).read()
